@@ -468,3 +468,19 @@ class Ctx:
               f"known={sum(self.known_hits.values())} wall={ev['wall_s']}s")
         sys.stdout.flush()
         return exit_code
+
+
+def tag_job(out, module, fn, args):
+    """Violations found by a job that runs many cases in one process carry the job's arguments: a defect that needs the
+    history of the process (a cache filled by an earlier scan ...) is not reproduced by its last case alone, so `--replay`
+    falls back to running the whole job again (harness/check.py)."""
+    try:
+        import json as _json
+        _json.dumps(args)
+    except TypeError:
+        return out
+    for key in ("violations", "disagreements", "known"):
+        for v in out.get(key, []):
+            if isinstance(v[0], dict):
+                v[0]["_job"] = {"module": module, "fn": fn, "args": args}
+    return out
